@@ -74,6 +74,15 @@ func genHostileCase(r *rand.Rand) Case {
 
 // stress replaces variable values by strange but type-correct or garbage strings.
 func stress(r *rand.Rand, c *gen.PI) {
+	if len(c.Prog.Vars) > 0 && r.IntN(5) == 0 {
+		// a declaration repeated (the parser accepts it)
+		d := c.Prog.Vars[r.IntN(len(c.Prog.Vars))]
+		if r.IntN(2) == 0 {
+			d.Type = core.Pick(r, []string{"account", "asset", "number", "monetary", "portion", "string"})
+		}
+		at := r.IntN(len(c.Prog.Vars) + 1)
+		c.Prog.Vars = append(c.Prog.Vars[:at], append([]gen.VarDecl{d}, c.Prog.Vars[at:]...)...)
+	}
 	for _, v := range c.Prog.Vars {
 		// texts that reach the same parsers through meta()
 		if v.Fn == "meta" && len(v.Args) == 2 && v.Args[0].K == "acc" && v.Args[1].K == "str" && r.IntN(3) == 0 {
@@ -120,6 +129,19 @@ type slot struct {
 // the top-level destination account, save accounts, call arguments.
 func exprSlots(c *gen.PI, kinds string) []slot {
 	var out []slot
+	if kinds == "any" {
+		// arguments of variable origins: evaluated while the vars block is processed
+		for i := range c.Prog.Vars {
+			v := &c.Prog.Vars[i]
+			if v.Fn == "" {
+				continue
+			}
+			for j := range v.Args {
+				j := j
+				out = append(out, slot{func() *gen.Expr { return &v.Args[j] }, func(e *gen.Expr) { v.Args[j] = *e }})
+			}
+		}
+	}
 	for i := range c.Prog.Stmts {
 		s := &c.Prog.Stmts[i]
 		switch s.K {
